@@ -103,7 +103,7 @@ CLAIMS["C05"] = {
     "design_ref": "DESIGN.md section 5, C05",
 }
 CLAIMS["C07"] = {
-    "text": "Partial. Proved over the connection transition system for every interleaving and fault position: callbacks have the shape open, messages, close; open and close occur at most once; when the read loop is done the close callback has been delivered exactly once, last, with the stored (non-nil) cause; message callbacks happen one at a time in script (wire) order (callback_shape, reader_done_closed_once, messages_in_wire_order). What is delivered between open and close is the read-path model's trace (C03). Not in the model: parallel dispatch and recover(); bounded parallelism and panic absorption are observed by the suites (racy parallel-handlers, read) only.",
+    "text": "Partial. Proved over the connection transition system for every interleaving and fault position: callbacks have the shape open, messages, close; open and close occur at most once; when the read loop is done the close callback has been delivered exactly once, last, with the stored (non-nil) cause; message callbacks happen one at a time in script (wire) order (callback_shape, reader_done_closed_once, messages_in_wire_order). What is delivered between open and close is the read-path model's trace (C03). Parallel handling is a second transition system (reader's channel send, handler return/panic): for every schedule at most ParallelGolimit handlers run, the reader blocks (drops nothing) at the limit, each message is dispatched in wire order and handled exactly once, and with a recovering Recovery a panicking handler is indistinguishable from a returning one (Par.parallel_bounded, reader_blocks_at_limit, each_message_once, panic_absorbed); the default Recovery does not recover and a panic kills the process (witness). Partial: real parallelism, recover() and teardown with handlers still running are observed.",
     "note": "Trusted: Lean kernel; atomic sections as in C06; parallel handling/recover semantics observed only.",
     "technique": "Lean 4 invariant proofs over a transition system of atomic sections + schedule replay on the real code through scheduling hooks",
     "design_ref": "DESIGN.md section 5, C07",
